@@ -16,7 +16,7 @@ use std::collections::BTreeMap;
 use std::path::{Path, PathBuf};
 use std::process::Command;
 
-const RULE: &str = "configurations enumerated exhaustively: check x format x graph x verbosity {0,1,2} x short x output {default, other directory, path that is a regular file, missing directory} x pre-existing {none, lexer.rs, parser.rs, both} x verdict {accepted, warnings only, syntax error, semantic error, missing input, input is a directory, input not UTF-8} (5376 configurations), each with a grammar drawn from a generated pool of its verdict class (1 per configuration quick, 4 thorough), plus lelwel::build through a helper process with OUT_DIR set. Oracle: snapshot (names, bytes, modification times) of working directory, input directory and output directory before and after the real `llw` process against an effects model from the statement: check mode => no difference at all; generate => generated.rs appears iff no error and the output directory is usable, lexer.rs/parser.rs appear iff no error and neither existed, pre-existing ones byte-identical; format without check => only the input file may change and becomes format(x); parser.gv only with -g outside check mode; exit status 0 <=> no error diagnostic (I/O failure counts as error); never a panic. non-trivial = configuration whose expected effect set is non-empty or that combines check with a writing flag; distinct = configuration";
+const RULE: &str = "configurations enumerated exhaustively: check x format x graph x verbosity {0,1,2} x short x output {default, other directory, path that is a regular file, missing directory} x pre-existing {none, lexer.rs, parser.rs, both} x verdict {accepted, warnings only, syntax error, semantic error, missing input, input is a directory, input not UTF-8} x, with -f, {input as generated, input already formatted} (6912 configurations), each with a grammar drawn from a generated pool of its verdict class (1 per configuration quick, 4 thorough), plus lelwel::build through a helper process with OUT_DIR set. Oracle: snapshot (names, bytes, modification times) of working directory, input directory and output directory before and after the real `llw` process against an effects model from the statement: check mode => no difference at all; generate => generated.rs appears iff no error and the output directory is usable, lexer.rs/parser.rs appear iff no error and neither existed, pre-existing ones byte-identical; format without check => only the input file may change and becomes format(x); parser.gv only with -g outside check mode; exit status 0 <=> no error diagnostic (I/O failure counts as error); never a panic. non-trivial = configuration whose expected effect set is non-empty or that combines check with a writing flag; distinct = configuration";
 
 #[derive(Clone, Copy, Debug, PartialEq, Eq)]
 pub enum Verdict {
@@ -48,6 +48,8 @@ pub struct Config {
     pub pre_lexer: bool,
     pub pre_parser: bool,
     pub verdict: Verdict,
+    /// the input file already holds format(x) (only varied together with -f)
+    pub formatted: bool,
 }
 
 type Snap = BTreeMap<String, (Vec<u8>, std::time::SystemTime)>;
@@ -294,7 +296,10 @@ pub fn all_configs() -> Vec<Config> {
                         for out in [OutKind::Default, OutKind::OtherDir, OutKind::RegularFile, OutKind::MissingDir] {
                             for (pre_lexer, pre_parser) in [(false, false), (true, false), (false, true), (true, true)] {
                                 for verdict in [Verdict::Accepted, Verdict::Warnings, Verdict::SyntaxError, Verdict::SemanticError, Verdict::Missing, Verdict::IsDir, Verdict::NotUtf8] {
-                                    v.push(Config { check, format, graph, verbose, short, out, pre_lexer, pre_parser, verdict });
+                                    v.push(Config { check, format, graph, verbose, short, out, pre_lexer, pre_parser, verdict, formatted: false });
+                                    if format && matches!(verdict, Verdict::Accepted | Verdict::Warnings | Verdict::SyntaxError | Verdict::SemanticError) {
+                                        v.push(Config { check, format, graph, verbose, short, out, pre_lexer, pre_parser, verdict, formatted: true });
+                                    }
                                 }
                             }
                         }
@@ -331,6 +336,12 @@ pub fn run(ctx: &Ctx) -> i32 {
                     Verdict::SyntaxError => pick(&pools.syntax),
                     Verdict::SemanticError => pick(&pools.semantic),
                     _ => String::new(),
+                };
+                let text = if c.formatted {
+                    let t2 = text.clone();
+                    lw::catch(move || lw::format_text(&t2)).unwrap_or(text)
+                } else {
+                    text
                 };
                 let dir = base.join(format!("j{i}-{r}"));
                 let res = run_config(c, &text, &dir);
